@@ -463,10 +463,11 @@ where
         let opi = pick(&wts, raw[0]);
         self.cx.bump(S::ops);
         self.cx.cur_op = OP_NAMES[opi];
+        self.cx.mark_op();
         let w = if raw[3] & 0x80 != 0 && self.slots[1].is_some() { 1 } else { 0 };
         self.cur_target = w;
         self.op_overflow = false;
-        self.quiet0 = if self.cx.armed == Prop::C09 && matches!(opi, O_INSERT | O_CONTAINS | O_GET | O_REMOVE | O_TAKE | O_RETAIN | O_WALK | O_FMT) {
+        self.quiet0 = if self.cx.armed == Prop::C09 && matches!(opi, O_CONTAINS | O_GET | O_REMOVE | O_TAKE | O_RETAIN | O_WALK | O_FMT) {
             Some([self.slots[0].as_ref().map(|s| s.model.clone()), self.slots[1].as_ref().map(|s| s.model.clone())])
         } else {
             None
